@@ -9,7 +9,9 @@ from ._common import shrink
 @jitted(
     "Tuple((f8[:, :], i4))(f8[:], f8[:], f8[:, :], f8[:, :], f8, f8, f8, f8, f8, i4, b1)"
 )
-def _ray2d_core(z, x, zgrad, xgrad, zend, xend, zsrc, xsrc, stepsize, max_step, honor_grid):
+def _ray2d_core(
+    z, x, zgrad, xgrad, zend, xend, zsrc, xsrc, stepsize, max_step, honor_grid
+):
     """
     Perform a posteriori 2D ray-tracing.
 
